@@ -10,10 +10,20 @@ use crate::model::{Content, State};
 pub fn write_file(key: &String, content: &Content, to: &PathBuf) -> std::io::Result<()> {
     // write a sibling temporary file and rename it over the note, so that a failed or
     // interrupted write (disk full, quota, kill) never leaves a truncated or empty note
-    let path = to.clone().join(format!("{}.md", key));
-    let temporary = to.clone().join(format!("{}.md.iwe-tmp", key));
+    let note = to.clone().join(format!("{}.md", key));
+    // a note behind a symbolic link is replaced where it really is: the link stays a link
+    let path = fs::canonicalize(&note).unwrap_or(note);
+    // the temporary name is short (a note name may be as long as the file system allows)
+    let temporary = path.with_file_name(format!(".iwe-tmp-{}", std::process::id()));
 
     fs::write(&temporary, content.as_str())
+        .and_then(|_| {
+            // the note keeps its permissions (a private note stays private)
+            match fs::metadata(&path) {
+                Ok(metadata) => fs::set_permissions(&temporary, metadata.permissions()),
+                Err(_) => Ok(()),
+            }
+        })
         .and_then(|_| fs::rename(&temporary, &path))
         .map_err(|error| {
             let _ = fs::remove_file(&temporary);
